@@ -99,3 +99,14 @@ fn iso_diagnostics_to_params<TCompilationProfile: CompilationProfile>(
         paths,
     )
 }
+
+#[cfg(isographlabs_isograph_verif)]
+#[allow(clippy::mutable_key_type)]
+pub fn verif_iso_diagnostics_to_params<TCompilationProfile: CompilationProfile>(
+    db: &IsographDatabase<TCompilationProfile>,
+    diagnostics: &[Diagnostic],
+    old_uris_with_diagnostics: BTreeSet<Uri>,
+) -> (Vec<PublishDiagnosticsParams>, BTreeSet<Uri>) {
+    let (params, uris) = iso_diagnostics_to_params(db, diagnostics, old_uris_with_diagnostics);
+    (params.collect(), uris)
+}
